@@ -29,7 +29,7 @@ ASSUMPTIONS = [
 TYPE_OF = {("pix", "data_wrap"): "pix_data_block", ("data", "nd_data"): "dnd_data_block"}
 
 
-def structural_checks(case, w, dec):
+def structural_checks(case, w, dec, partial=False):
     hdr = dec["header"]
     n_dims = case["pix"]["n_dims"] if "pix" in case["calls"] else 0
     if hdr != ("horace", 4.0, 1, n_dims):
@@ -43,7 +43,7 @@ def structural_checks(case, w, dec):
     if len(set(names)) != len(names):
         raise Violation("duplicate-block", f"block listed more than once: {names}")
     want = sq.expected_blocks(case)
-    if set(names) != set(want):
+    if set(names) != set(want) and not partial:
         raise Violation("block-set", f"blocks {sorted(names)}, expected {sorted(want)}")
     pos = dec["bat_end"]
     for d in dec["descriptors"]:
@@ -91,6 +91,19 @@ def check_container(case):
             w = sq.write(case, tmpdir=tmpdir)
         except sq.Refused:
             return [*labs, "non-ascii-text:refused"], False
+        except sq.RefusedInvalid as r:
+            # a refusal must not leave half a container behind ("every file the builder produces ...")
+            labs.append("invalid-input:refused")
+            if r.left:
+                try:
+                    dec = ref.decode(r.left)
+                    structural_checks(case, None, dec, partial=True)
+                except Exception as e:  # noqa: BLE001
+                    raise Violation("partial-file", f"the builder refused the input ({r}) but left {len(r.left)} bytes "
+                                                    f"in the target that are not a complete container: "
+                                                    f"{type(e).__name__}: {str(e)[:200]}") from None
+                labs.append("refusal-left-a-complete-file")
+            return labs, True
         if case["target"] == "file" and str(w.returned) != w.path:
             raise Violation("returned-path", f"create() returned {w.returned!r} for target {w.path!r}")
         dec = ref.decode(w.bytes)
@@ -134,7 +147,8 @@ FACETS = [
     Facet("container", check_container, strategy=lambda tier: sq.sqw_programs(tier),
           quick=(8, 150), thorough=(16, 1500), min_nontrivial=0.3,
           doc="independent decode of every written file: header, BAT, extents tile the file, blocks decode exactly"),
-    Facet("container_pixels", check_container, strategy=lambda tier: sq.sqw_programs(tier, force_pix=True),
+    Facet("container_pixels", check_container,
+          strategy=lambda tier: sq.sqw_programs(tier, force_pix=True, row_variants=True),
           quick=(8, 100), thorough=(16, 1000), min_nontrivial=0.3,
           doc="same, every program contains add_pixel_data (chunked pixel writer)"),
 ]
